@@ -212,12 +212,6 @@ func TestC13(t *testing.T) {
 			}
 			var rerr error
 			p := Recover(func() { rerr = rc2.Resume(c2) })
-			if p == "" && rerr != nil && pc.pos == len(msgs) && errors.Cause(rerr) == io.EOF {
-				// checkpoint taken after the last message: there is no next unread message; reporting
-				// end-of-stream from Resume instead of from the next read returns nothing wrong
-				Ev.Probe("end_of_stream_checkpoint_resume_reports_eof")
-				return true
-			}
 			if p != "" || rerr != nil {
 				Violation(rt, "C13/resume-failed", "Resume from checkpoint popped before message %d (offset %d): %v %s (%s)\n%v", pc.pos, c2.Offset, rerr, p, CompString(comp), sample())
 				return false
